@@ -138,3 +138,15 @@ Print Assumptions code_keep_list_is_model.
 Theorem rules_are_expasy_reference : MoPep.Gen.Expasy.site_rules = MoPep.Model.ExpasyRef.reference_rules.
 Proof. exact MoPep.Proofs.ExpasyProofs.rules_match_reference_proof. Qed.
 Print Assumptions rules_are_expasy_reference.
+
+(* the WHOLE VariantPeptidePool.filter (miscleavage window with its None / TypeError cases, denylist flag, per-entry
+   loop, `if keep:`), translated from the source on every run, is the model's per-peptide function mapped over the
+   (deduplicated) pool, errors included *)
+Theorem code_filter_translated : Py_VariantPeptidePool.py_filter_untranslated = false.
+Proof. vm_compute. reflexivity. Qed.
+Print Assumptions code_filter_translated.
+
+Theorem code_filter_is_model : forall o peps,
+  Py_VariantPeptidePool.py_filter o peps = bind (mapM (filter_pep o) peps) (fun rs => Ok (flat_map opt_list rs)).
+Proof. exact code_filter_is_model_l. Qed.
+Print Assumptions code_filter_is_model.
